@@ -160,7 +160,7 @@ def gen(tier, rng, scale):
         text = "\n".join(lines)
         if rng.chance(1, 10):
             text = text[len(text.split("\n")[0]) + 1:]               # no MODULE line
-        idx = rng.choice(["none", "own", "stale", "mutated", "garbage"])
+        idx = rng.choice(["none", "own", "stale", "mutated", "garbage", "fields"])
         addrs = sorted(set([0, 0x1000, 0x1012, 0x1019, 0x103f, 0x1040, 0xfffffff0, 0xfffffff8, 0xffffffff] + [rng.below(0x2000) for _ in range(6)]))
         cases.append({"stream": "bp", "items": [text, idx, rng.next() % 100000], "addrs": addrs, "pristine": pristine and idx in ("none", "own"), "_other": other})
     # (3) codeid
@@ -231,7 +231,7 @@ def evaluate(cases):
                     f.write(text.encode("latin-1", "replace"))
                 ip = "-"
                 if kind != "none":
-                    own = _index_bytes(bin_sym, p) if kind in ("own", "mutated") else None
+                    own = _index_bytes(bin_sym, p) if kind in ("own", "mutated", "fields") else None
                     data = own if kind == "own" else other_idx if kind == "stale" else None
                     if kind == "mutated" and own:
                         b = bytearray(own)
@@ -241,6 +241,27 @@ def evaluate(cases):
                             b[j] = r.choice([0, 0xff, b[j] ^ 0x80, r.below(256)])
                         if r.chance(1, 4):
                             b = b[:r.below(len(b) + 1)]
+                        data = bytes(b)
+                    if kind == "fields" and own and len(own) >= 48:
+                        # an index that still parses, with boundary values in whole fields of its 16-byte entries (index / kind at +0, length at +4, the
+                        # 64-bit text offset at +8): offsets and lengths whose sum wraps, lies beyond the text, or points into the middle of a record
+                        import struct
+                        b = bytearray(own)
+                        r = K.SplitMix64(seed)
+                        h = struct.unpack_from("<10I", b, 8)
+                        tables = [(h[4], h[3]), (h[6], h[5]), (h[9], h[7])]
+                        for _ in range(r.range(1, 4)):
+                            off, cnt = r.choice(tables)
+                            if cnt == 0 or off + 16 * cnt > len(b):
+                                continue
+                            e = off + 16 * r.below(cnt)
+                            ln = struct.unpack_from("<I", b, e + 4)[0]
+                            if r.chance(3, 4):
+                                v = r.choice([(1 << 64) - 1, (1 << 64) - ln, (1 << 64) - ln - 1, (1 << 64) - ln + 1, (1 << 64) - 8, 1 << 63, 1 << 32, (1 << 32) - 1, 1 << 40, len(text),
+                                              max(0, len(text) - ln), max(0, len(text) - ln + 1), 0, 1, 7])
+                                struct.pack_into("<Q", b, e + 8, v & ((1 << 64) - 1))
+                            else:
+                                struct.pack_into("<I", b, e + 4, r.choice([0, 1, 0xFFFFFFFF, 0x80000000, len(text), len(text) + 1, ln + 1, max(0, ln - 1)]))
                         data = bytes(b)
                     if kind == "garbage" or data is None:
                         r = K.SplitMix64(seed)
